@@ -25,6 +25,7 @@ var c11Progs = []c11Prog{
 	{"reuse_mul", "\tMOV AX,{0}*512\n\tMOV CX,{0}\n\tMOV AL,[BX+{0}]\n\tDB {0},{1}/9,{1}%5,{1}\n\tMOV DX,{2}*2+{2}\n\tDW {2},{3}/2,{3}\n", [][4]int64{{18, 18, 3, 0x1234}, {1, 255, 127, 0xffff}}},
 	{"high_values", "\tADD EAX,{0}\n\tAND EBX,{1}\n\tMOV ECX,[EBX+{2}]\n\tDD {3}/0x1000\n\tCMP EDX,{0}\n", [][4]int64{{0xffffff80, 0x80000000, 0xfffffffc, 0xe0000000}, {0xffffffff, 0xffff0000, 0x80000000, 0xfffff000}}},
 	{"reuse_add", "\tMOV AX,{0}+1\n\tMOV BX,{0}\n\tDW {0}-1,{0}\n\tMOV CX,[BX+{1}+2]\n\tMOV DX,[SI+{1}]\n\tDB {2}+{2},{2}\n\tADD CX,{3}-1\n\tADD DX,{3}\n", [][4]int64{{16, 4, 3, 128}, {0x1ff, 126, 127, 129}}},
+	{"scaled_index", "[BITS 32]\n\tMOV EAX,[EBX+ECX*{0}]\n\tMOV EDX,[EBX+ECX*{0}+{1}]\n\tMOV AL,[ESI+EDI*{2}]\n\tMOV ECX,[EBP+EDX*{0}+{3}*2]\n\tMOV [EAX*{2}+{1}],BL\n\tADD EAX,[{3}+EBX+ESI*{0}]\n", [][4]int64{{4, 8, 2, 6}, {8, 0x100, 1, 3}}},
 	{"far_out", "\tJMP DWORD {0}*8:{1}\n\tOUT {2},AL\n\tMOV EDX,{3}\n", [][4]int64{{2, 0x1b, 0x21, 0x000a0000}, {1, 0x280000, 0xa1, 1}}},
 }
 
@@ -114,9 +115,9 @@ func c11Scenario(tier string) *core.Scenario {
 				abstracted = c11Fill(sb.String(), abs)
 			}
 			return &core.Case{
-				Key:  fmt.Sprintf("%s vals=%v subset=%04b depth=%d body=%d early=%v", p.name, vs, subset, depth, body, early),
-				Feat: feat("prog", p.name, "subset", fmt.Sprintf("%04b", subset), "depth", fmt.Sprint(depth), "body", fmt.Sprint(body), "early", fmt.Sprint(early)),
-				Srcs: []string{abstracted, inlined},
+				Key:       fmt.Sprintf("%s vals=%v subset=%04b depth=%d body=%d early=%v", p.name, vs, subset, depth, body, early),
+				Feat:      feat("prog", p.name, "subset", fmt.Sprintf("%04b", subset), "depth", fmt.Sprint(depth), "body", fmt.Sprint(body), "early", fmt.Sprint(early)),
+				FreshRefs: true, Srcs: []string{abstracted, inlined},
 				Judge: func(rs []*core.Result) core.Verdict {
 					v := core.Verdict{}
 					ea, ei := core.ReportsError(rs[0], nil), core.ReportsError(rs[1], nil)
@@ -171,9 +172,9 @@ func c11Special() *core.Scenario {
 			a := hdr + pairs[pi][0]
 			b := hdr + strings.ReplaceAll(pairs[pi][1], "{O}", o)
 			return &core.Case{
-				Key:  fmt.Sprintf("special %d org=%s", pi, o),
-				Feat: feat("pair", fmt.Sprint(pi), "org", o),
-				Srcs: []string{a, b},
+				Key:       fmt.Sprintf("special %d org=%s", pi, o),
+				Feat:      feat("pair", fmt.Sprint(pi), "org", o),
+				FreshRefs: true, Srcs: []string{a, b},
 				Judge: func(rs []*core.Result) core.Verdict {
 					v := core.Verdict{}
 					if core.ReportsError(rs[1], nil) {
